@@ -179,6 +179,16 @@ func (a ruleNodesAd) apply(op omOp) {
 		a.m.Delete(a.sp.f(op.K))
 	case "filter":
 		a.m.Filter(func(k string, _ schema.RuleASTNode) bool { return inSet(op.Keys, a.sp.b(k)) })
+	case "filterpanic":
+		func() {
+			defer func() { _ = recover() }()
+			a.m.Filter(func(k string, _ schema.RuleASTNode) bool {
+				if a.sp.b(k) == op.K {
+					panic(errMapCallback)
+				}
+				return inSet(op.Keys, a.sp.b(k))
+			})
+		}()
 	case "map":
 		_ = a.m.Map(func(k string, v schema.RuleASTNode) (schema.RuleASTNode, error) {
 			if inSet(op.Keys, a.sp.b(k)) {
@@ -265,6 +275,16 @@ func (a astNodesAd) apply(op omOp) {
 		a.m.Delete(a.sp.f(op.K))
 	case "filter":
 		a.m.Filter(func(k string, _ schema.ASTNode) bool { return inSet(op.Keys, a.sp.b(k)) })
+	case "filterpanic":
+		func() {
+			defer func() { _ = recover() }()
+			a.m.Filter(func(k string, _ schema.ASTNode) bool {
+				if a.sp.b(k) == op.K {
+					panic(errMapCallback)
+				}
+				return inSet(op.Keys, a.sp.b(k))
+			})
+		}()
 	case "map":
 		_ = a.m.Map(func(k string, v schema.ASTNode) (schema.ASTNode, error) {
 			if inSet(op.Keys, a.sp.b(k)) {
@@ -376,6 +396,16 @@ func (a constraintsAd) apply(op omOp) {
 		a.m.Delete(omCKey(op.K))
 	case "filter":
 		a.m.Filter(func(k constraint.Type, _ constraint.Constraint) bool { return inSet(op.Keys, omCKeyName(k)) })
+	case "filterpanic":
+		func() {
+			defer func() { _ = recover() }()
+			a.m.Filter(func(k constraint.Type, _ constraint.Constraint) bool {
+				if omCKeyName(k) == op.K {
+					panic(errMapCallback)
+				}
+				return inSet(op.Keys, omCKeyName(k))
+			})
+		}()
 	case "map":
 		_ = a.m.Map(func(k constraint.Type, v constraint.Constraint) (constraint.Constraint, error) {
 			if inSet(op.Keys, omCKeyName(k)) {
@@ -612,6 +642,13 @@ func omOpOf(e tlc.Edge) omOp {
 			ks = []string{}
 		}
 		return omOp{Op: "map", Keys: ks, V: tlc.Str(e.Args[1])}
+	case "FilterPanic":
+		ks := tlc.Strs(e.Args[0])
+		sort.Strings(ks)
+		if ks == nil {
+			ks = []string{}
+		}
+		return omOp{Op: "filterpanic", Keys: ks, K: tlc.Str(e.Args[1])}
 	case "MapFail":
 		ks := tlc.Strs(e.Args[0])
 		sort.Strings(ks)
@@ -712,7 +749,11 @@ func runC19(c *core.Ctx) error {
 			if len(ops) > 0 {
 				// every path with the keys spelled as named, and under one of the other spellings in rotation
 				nth++
-				for _, tab := range []map[string]string{nil, omSpellTabs[1+nth%(len(omSpellTabs)-1)]} {
+				tabs := []map[string]string{nil}
+				if nth%2 == 0 {
+					tabs = append(tabs, omSpellTabs[1+(nth/2)%(len(omSpellTabs)-1)])
+				}
+				for _, tab := range tabs {
 					for _, cont := range omContainers {
 						if tab != nil && cont == "Constraints" {
 							continue // typed keys: nothing to spell
